@@ -196,18 +196,30 @@ func c13Scenarios(tier string) []*core.Scenario {
 	// EQU definition graphs: every assignment of a body form to three names, then every name used
 	bodies := c13EquBodies()
 	scs = append(scs, &core.Scenario{Name: "equ_graphs", Bound: -1,
-		Rule:   "all EQU definition graphs over three names: each of A, B, C gets a body from {1} + {X, X+1, X*2, 2*X, X-3, (X+1)*2, X+Y: X, Y in {A,B,C}} (self-references and cycles of every shape through arithmetic included), followed by uses of all three names as immediate, data item and displacement; liveness oracle",
+		Rule:   "all EQU definition graphs over three names (spelled A, B, C or .a, cfg.b, c_1): each of A, B, C gets a body from {1} + {X, X+1, X*2, 2*X, X-3, (X+1)*2, X+Y: X, Y in {A,B,C}} (self-references and cycles of every shape through arithmetic included), followed by uses of all three names as immediate, data item and displacement; liveness oracle",
 		Bounds: map[string]any{"names": 3, "body_forms": len(bodies)},
 		Build: func(c *core.Chooser) *core.Case {
 			var sb strings.Builder
 			var key []string
+			naming := c.Pick("naming", 2) // plain names, or names with dots/lower case/underscore (".a", "cfg.b", "c_1")
+			ren := strings.NewReplacer("A", ".a", "B", "cfg.b", "C", "c_1")
 			for _, n := range []string{"A", "B", "C"} {
 				b := bodies[c.Pick("body_"+n, len(bodies))]
 				key = append(key, b)
 				fmt.Fprintf(&sb, "%s EQU %s\n", n, b)
 			}
 			sb.WriteString("\tMOV AX,C\n\tDB A,B\n\tMOV CX,[BX+B]\n\tDW C+A\n")
-			return one("equ", strings.Join(key, " | "), sb.String(), feat("a", key[0], "b", key[1], "c", key[2]))
+			src := sb.String()
+			k := strings.Join(key, " | ")
+			if naming == 1 {
+				src = ren.Replace(src)
+				src = strings.ReplaceAll(src, "MOV .aX", "MOV AX") // the register is not a name
+				src = strings.ReplaceAll(src, "MOV c_1X", "MOV CX")
+				src = strings.ReplaceAll(src, "[cfg.bX+", "[BX+")
+				src = strings.ReplaceAll(src, "Dcfg.b ", "DB ")
+				k += " (dotted names)"
+			}
+			return one("equ", k, src, feat("a", key[0], "b", key[1], "c", key[2], "naming", fmt.Sprint(naming)))
 		}})
 	// C07's operand space under the liveness oracle
 	ar := 2
@@ -308,6 +320,26 @@ var c13Families = []scaleFamily{
 	{"nested_parens_in_comment", func(n int) string { return "\tDB 1 ; " + strings.Repeat("(", n) + "\n\tDB 2\n" }},
 	{"nested_brackets", func(n int) string { return "\tMOV AX," + strings.Repeat("[", n) + "BX" + strings.Repeat("]", n) + "\n" }},
 	{"unary_minus_chain", func(n int) string { return "\tDD " + strings.Repeat("-", n) + "1\n" }},
+	// object-file paths: sizes that end up in fixed-width COFF fields
+	{"coff_file_name", func(n int) string {
+		return "[FORMAT \"WCOFF\"]\n[BITS 32]\n[FILE \"" + strings.Repeat("f", n) + ".nas\"]\n[SECTION .text]\n\tRET\n"
+	}},
+	{"coff_global_name", func(n int) string {
+		nm := "_" + strings.Repeat("g", n)
+		return "[FORMAT \"WCOFF\"]\n[BITS 32]\n\tGLOBAL " + nm + "\n[SECTION .text]\n" + nm + ":\n\tRET\n"
+	}},
+	{"coff_globals", func(n int) string {
+		var sb strings.Builder
+		sb.WriteString("[FORMAT \"WCOFF\"]\n[BITS 32]\n")
+		for i := 0; i < n; i++ {
+			fmt.Fprintf(&sb, "\tGLOBAL _sym_number_%d\n", i)
+		}
+		sb.WriteString("[SECTION .text]\n")
+		for i := 0; i < n; i++ {
+			fmt.Fprintf(&sb, "_sym_number_%d:\n\tRET\n", i)
+		}
+		return sb.String()
+	}},
 	{"equ_uses", func(n int) string { return "K EQU 7\n" + strings.Repeat("\tDB K*2,K\n", n) }},
 	{"mem_sum", func(n int) string { return "\tMOV AX,[BX+1" + strings.Repeat("+1", n) + "]\n" }},
 }
